@@ -192,11 +192,13 @@ impl GcMap {
     }
 
     pub fn insert(&self, key: Primitive, value: Primitive) -> Result<Option<Primitive>> {
+        // key and value can be references into this very map (`m[m[1]] = m[2]`): they are
+        // read before the map is borrowed for the write
+        let key = key.move_out_of_heap_primitive()?;
+        let value = value.move_out_of_heap_primitive()?;
+
         let mut view = self.0.borrow_mut();
-        Ok(view.insert(
-            key.move_out_of_heap_primitive()?,
-            value.move_out_of_heap_primitive()?,
-        ))
+        Ok(view.insert(key, value))
     }
 
     pub fn get(&self, key: Primitive) -> Result<Primitive> {
